@@ -264,13 +264,12 @@ def rmDir : Nat → Str → Prog → Prog
       | .ok _ => leak
       | .err e => .ret (.err e)
 
-/-- `FS.removetree`: `_dir_path = abspath(normpath(dir_path))` (no `check()` of its own), the
-depth-first walk, then `if _dir_path != "/": self.removedir(dir_path)` with the RAW path -/
+/-- `FS.removetree`: `_dir_path = self.validatepath(dir_path)` (since /repo 433aea4; before,
+`abspath(normpath(dir_path))` with no `check()` and no validation of its own), the depth-first walk, then
+`if _dir_path != "/": self.removedir(dir_path)` with the RAW path -/
 def baseRemovetree (fuel : Nat) (p : Str) : Prog :=
-  match normpath p with
-  | .err e => .ret (.err e)
-  | .ok n =>
-    let d := abspath n
+  .validate p <|
+    let d := absnorm p
     rmDir fuel d (if d = ['/'] then .ret (.ok .unit) else one (.removedir p))
 
 /-- the inner loop of `_walk_breadth` over the entries of `d`: `visit path isDir` is what the consumer
